@@ -1,3 +1,4 @@
 pub mod curve;
 pub mod supply;
 pub mod demand;
+pub mod uniproc;
